@@ -1,13 +1,15 @@
 import OrsoVerif.Model.PyVal
 import OrsoVerif.Model.RowCodec
-/-! Driver glue for C01: pack / header / encode / decode / frame / bigframe. -/
+import OrsoVerif.Model.RowStream
+/-! Driver glue for C01: pack / header / encode / decode / frame / bigframe / mutants / split / stream. -/
 namespace Drv.C01
-open RowBytes MsgPack RowCodec
+open RowBytes MsgPack RowCodec RowStream
 
 def encErr : EncErr → PyVal
   | .tooLarge => .list [.str "err", .str "tooLarge"]
   | .overflow => .list [.str "err", .str "overflow"]
   | .codec => .list [.str "err", .str "codec"]
+  | .unknownOp => .list [.str "err", .str "unknownOp"]
 
 def decErr : DecErr → PyVal
   | .malformed => .list [.str "err", .str "malformed"]
@@ -18,6 +20,30 @@ def decErr : DecErr → PyVal
 def item : Item → PyVal
   | .val v => .list [.str "v", v]
   | .datetime x => .list [.str "dt", x]
+
+def decRes : Except DecErr (List Item) → PyVal
+  | .ok items => .list [.str "ok", .list (items.map item)]
+  | .error e => decErr e
+
+/-- One alteration of a record, described by the harness: a tear (`take k`), a single-bit flip
+(`flipBit`, the function the theorems speak about), an appended suffix, a replaced byte. -/
+def applyMut (r : RowBytes.Bytes) : PyVal → Option RowBytes.Bytes
+  | .list [.str "t", .int k] => if k < 0 then none else some (r.take k.toNat)
+  | .list [.str "f", .int i, .int j] => if i < 0 ∨ j < 0 then none else some (flipBit r i.toNat j.toNat)
+  | .list [.str "x", .bytes s] => some (r ++ s)
+  | .list [.str "l", .bytes b] => if b.length = 4 then some (r.take 2 ++ b ++ r.drop 6) else none
+  | .list [.str "s", .int i, .int b] =>
+    if i < 0 ∨ b < 0 ∨ b > 255 then none else some (setByte r i.toNat (UInt8.ofNat b.toNat))
+  | _ => none
+
+def mutRes (base : PyVal) (r : RowBytes.Bytes) : List PyVal → Option (List PyVal)
+  | [] => some []
+  | m :: ms =>
+    match applyMut r m, mutRes base r ms with
+    | some d, some out =>
+      let x := decRes (decodeRow d)
+      some ((if x = base then .str "same" else x) :: out)
+    | _, _ => none
 
 def handle (op : String) (args : List PyVal) : Option (List PyVal) :=
   match op, args with
@@ -44,19 +70,43 @@ def handle (op : String) (args : List PyVal) : Option (List PyVal) :=
     match checkFrame data with
     | .ok p => some [.list [.str "ok", .bytes p]]
     | .error e => some [decErr e]
-  -- length-only op for very large records: payload of `n` zero bytes framed with `ts`, then
-  -- `cut` bytes removed from the end and `ext` zero bytes appended; reports the header and what
-  -- the guards say.
+  -- length-only op for very large records (a payload of `n` bytes framed with `ts`, `cut` bytes
+  -- removed from the end, `ext` bytes appended). Nothing of that size is materialised: the model
+  -- decides from the length (`frameDecision`, the function `encodeFrame` calls), assembles the
+  -- parts around an empty payload (`frameBytes n ts []`: the header, the payload being the last
+  -- part) and runs the decoder's guards (`checkHead`, the function `checkFrame` calls) on the
+  -- total length and those first bytes -- the guards read nothing beyond them (checked here).
   | "bigframe", [.int n, .int ts, .int cut, .int ext] =>
     if n < 0 ∨ ts < 0 ∨ cut < 0 ∨ ext < 0 then none else
-    match encodeFrame ts.toNat (List.replicate n.toNat 0) with
-    | .error e => some [encErr e]
-    | .ok r =>
-      let r2 := r.take (r.length - cut.toNat) ++ List.replicate ext.toNat 0
-      let res := match checkFrame r2 with
-        | .ok p => PyVal.list [.str "ok", .int p.length]
-        | .error e => decErr e
-      some [.list [.str "ok", .bytes (r.take 14), .int r.length], res]
+    match frameDecision ts.toNat n.toNat with
+    | some e => some [encErr e]
+    | none =>
+      let head := frameBytes n.toNat ts.toNat []
+      let total := head.length + n.toNat
+      let len2 := total - cut.toNat + ext.toNat
+      let reads := 0 :: Gen.Row.lengthField.map (·.1)
+      if Gen.Row.frameLayout.getLast? != some "payload" ∨ reads.any (· ≥ head.length) ∨ len2 < head.length then
+        some [.list [.str "err", .str "unknownOp"]]
+      else
+        let res := match checkHead len2 head with
+          | .ok _ => PyVal.list [.str "ok", .int ((len2 - Gen.Row.payloadStart : Nat) : Int)]
+          | .error e => decErr e
+        some [.list [.str "ok", .bytes head, .int total], res]
+  -- the record, then every listed alteration of it: the outcome of the decoder model on each
+  -- ("same" = the outcome on the unaltered record)
+  | "mutants", [.bytes r, .list ms] =>
+    let base := decRes (decodeRow r)
+    match mutRes base r ms with
+    | some out => some [base, .list out]
+    | none => none
+  | "split", [.bytes data] =>
+    match split data with
+    | .ok rs => some [.list [.str "ok", .list (rs.map PyVal.bytes)]]
+    | .error e => some [decErr e]
+  | "stream", [.bytes data] =>
+    match decodeStream data with
+    | .ok rows => some [.list [.str "ok", .list (rows.map fun r => .list (r.map item))]]
+    | .error e => some [decErr e]
   | _, _ => none
 
 end Drv.C01
